@@ -32,13 +32,13 @@ def to_call(ev):
         if v["k"] == "sig":
             j = idx.get(v["src"])
             if j is None or j >= me:
-                return {"k": "name", "v": "%s:%s" % (v["src"], v["t"])}
+                return {"k": "name", "s": "%s:%s" % (v["src"], v["t"])}
             return {"k": "sig", "src": j, "t": v["t"]}
         if v["k"] == "opaque":
             uniq[0] += 1
             return {"k": "opaque", "u": uniq[0]}
         if v["k"] == "name":
-            return {"k": "name", "v": str(v["v"])}
+            return {"k": "name", "s": str(v["v"])}
         return {"k": "int", "v": int(v["v"])}
 
     def node(n, me):
